@@ -40,7 +40,8 @@ def gen_dcontent(rng, size=None):
     r = rng.random()
     if r < 0.5:
         return {"rand": rng.randint(0, 1 << 30), "len": size}
-    return {"pat": rng.choice(["e5", "ff", "00", "41", "0102030405060708090a0b0c0d0e0f", "fe", "c1"]), "len": size}
+    # fillers and table-like bytes, then what text tools like to 'clean': a UTF-8 byte order mark, other leading high bytes, line ends, Ctrl-Z, blanks
+    return {"pat": rng.choice(["e5", "ff", "00", "41", "0102030405060708090a0b0c0d0e0f", "fe", "c1", "efbbbf", "efbbbf31302041", "bfbbef20", "fffe3100", "0d0a", "1a41", "2009"]), "len": size}
 
 
 def gen_dname(rng, used, auto_bat=False):
@@ -56,6 +57,8 @@ def gen_dname(rng, used, auto_bat=False):
         else:
             n = rng.choice([1, 2, 3, 5, 7, 8, 8])
             name = "".join(rng.choice(DNAME) for _ in range(n))
+            if rng.random() < 0.05:
+                name = rng.choice("@+=~#%&!^{}[]()$;'") + name[1:]
             if name.startswith("-"):
                 name = "X" + name[1:]
             ext = rng.choice(DEXTS)
